@@ -1,9 +1,126 @@
 (* C15 - printing a parsed theory, specification or user guide re-parses to the same tree.
-   Statements only; proofs live in Proofs/Fol*.v. *)
+   Statements only; proofs live in Proofs/Fol*.v.
+   Objects: Model/FolPrint.v (token printers; [render] gives the bytes of Display; [strip] drops the layout
+   tokens), Model/FolLex.v (char-level lexer), Model/FolParse.v + Model/FolPratt.v (token-level PEG +
+   pest's Pratt algorithm), Gen/TablesFol.v (operator tables REGENERATED from the Rust sources),
+   Model/FolClass.v (well-formedness = the lexical/structural invariants of parser output; the two known
+   classes F7b and C15-RIMP).  The theorems are at TOKEN level; the lexer is tied to the grammar by the
+   differential correspondence only (and by the vm_compute examples below, which go through [lex]). *)
 From Coq Require Import List String ZArith NArith.
 Import ListNotations.
-From Anthem Require Import Syntax.Fol Gen.TablesFol Model.FolPrint Model.FolLex Model.FolParse Model.FolClass.
+From Anthem Require Import Syntax.Fol Gen.TablesFol Model.FolPrint Model.FolLex Model.FolPratt Model.FolParse Model.FolClass
+  Proofs.FolPrattOk Proofs.FolTermRT Proofs.FolFormulaRT Proofs.FolRoundTrip Proofs.FolTopRT Proofs.FolStrip Proofs.FolC15.
 Open Scope string_scope.
+
+(* ---------- round trip ---------- *)
+(* theories: every well-formed theory outside the known classes is read back from its own printed tokens
+   by the executable parser (with the executable parser's own fuel), numerals in range included *)
+Theorem C15_theory :
+  forall t : theory, wf_theory t = true -> known_class_theory t = None ->
+  parse_theory_toks (strip (print_theory true t)) = PR_ok t.
+Proof. exact FolC15.C15_theory. Qed.
+Print Assumptions C15_theory.
+
+Theorem C15_specification :
+  forall s : specification, wf_spec s = true -> known_class_spec s = None ->
+  parse_spec_toks (strip (print_spec true s)) = PR_ok s.
+Proof. exact FolC15.C15_spec. Qed.
+Print Assumptions C15_specification.
+
+Theorem C15_user_guide :
+  forall u : user_guide, wf_ug u = true -> known_class_ug u = None ->
+  parse_ug_toks (strip (print_ug true u)) = PR_ok u.
+Proof. exact FolC15.C15_ug. Qed.
+Print Assumptions C15_user_guide.
+
+(* formulas, in the generalised form the induction needs: whatever may follow a formula (R: no infix
+   connective, no continuation of a term or of a guard chain) is left untouched *)
+Theorem C15_formula :
+  forall (n : nat) (F : formula) (R : list token),
+  fsize F + 3 < n -> wf_formula F = true /\ keyword_ident F = false /\ rimp_neg F = false ->
+  ffollow (ends_term F) 0 R ->
+  peg_formula n (print_formula false F ++ R) = Ok F R.
+Proof. exact formula_rt. Qed.
+Print Assumptions C15_formula.
+
+(* integer terms, general terms, atomic formulas (no exclusions) *)
+Theorem C15_integer_term :
+  forall (fuel : nat) (t : iterm) (R : list token), isize t < fuel -> ifollow R ->
+  peg_iterm fuel (print_iterm false t ++ R) = Ok t R.
+Proof. exact iterm_rt. Qed.
+Print Assumptions C15_integer_term.
+Theorem C15_general_term :
+  forall (t : gterm) (fuel : nat) (R : list token), gsize t < fuel -> ifollow R ->
+  peg_gterm fuel (print_gterm false t ++ R) = Ok t R.
+Proof. exact gterm_rt. Qed.
+Print Assumptions C15_general_term.
+Theorem C15_atomic_formula :
+  forall (a : aformula) (k fuel : nat) (R : list token), asize a + k < fuel ->
+  (match a with ACmp _ [] => False | _ => True end) -> afollow a k R ->
+  peg_atomic fuel (print_atomic false a ++ R) = Ok a R.
+Proof. exact atomic_rt. Qed.
+Print Assumptions C15_atomic_formula.
+
+(* the Pratt phase alone, over the generated tables: the item sequence of a printed formula / integer
+   term is rebuilt into the same tree (all five connectives incl. the mixed-associativity level, both
+   prefix operators, mandatory parentheses) *)
+Theorem C15_pratt_formula : forall f : formula, pratt_formula (map to_fp (fitems f)) = Some f.
+Proof. exact pratt_formula_items. Qed.
+Print Assumptions C15_pratt_formula.
+Theorem C15_pratt_integer_term : forall t : iterm, pratt_iterm (map to_ip (iitems t)) = Some t.
+Proof. exact pratt_iterm_items. Qed.
+Print Assumptions C15_pratt_integer_term.
+(* ... and these item sequences are exactly what the printer emits *)
+Theorem C15_printer_items : forall f : formula, print_formula false f = fflat (fitems f).
+Proof. exact print_formula_items. Qed.
+Print Assumptions C15_printer_items.
+
+(* implications / reverse implications / equivalences never reach the printer without parentheses as
+   children, so the mixed-associativity level of the parser table is never exercised by printed text *)
+Theorem C15_mixed_level_parenthesised :
+  forall (c : bconn) (l r : formula),
+  (match l with FBin (CImp | CRimp | CIff) _ _ => lhs_paren (FBin c l r) l = true | _ => True end) /\
+  (match r with FBin (CImp | CRimp | CIff) _ _ => rhs_paren (FBin c l r) r = true | _ => True end).
+Proof. exact mixed_level_parenthesised. Qed.
+Print Assumptions C15_mixed_level_parenthesised.
+
+(* greedy binder lists: the test of commit cc14b46 (on the rendered bytes) is exact on well-formed
+   formulas: when it does not fire, the first token after the binder list is not a variable *)
+Theorem C15_binder_list_ends :
+  forall g : formula, wf_formula g = true -> begins_with_variable (render (print_formula true g)) = false ->
+  no_var_head (print_formula false g).
+Proof. exact bwv_head. Qed.
+Print Assumptions C15_binder_list_ends.
+
+(* the two parenthesis ambiguities of the PEG *)
+Theorem C15_paren_comparison_not_formula :
+  forall (n : nat) (t : iterm) (X : list token), isize t + 2 < n ->
+  lead_safe (print_iterm false t ++ TRParen :: X) ->
+  peg_formula n (print_iterm false t ++ TRParen :: X) = Fail.
+Proof. exact formula_fails_on_iterm. Qed.
+Print Assumptions C15_paren_comparison_not_formula.
+
+(* printing is idempotent through the parser *)
+Theorem C15_print_idem :
+  forall t t' : theory, wf_theory t = true -> known_class_theory t = None ->
+  parse_theory_toks (strip (print_theory true t)) = PR_ok t' -> show_theory t' = show_theory t.
+Proof. exact C15_print_idem_theory. Qed.
+Print Assumptions C15_print_idem.
+
+(* the byte-level printer and the token list the parser reads differ by layout tokens only *)
+Theorem C15_strip_theory : forall t : theory, strip (print_theory true t) = print_theory false t.
+Proof. exact strip_theory. Qed.
+Print Assumptions C15_strip_theory.
+
+(* pest's Pratt algorithm, generically: fuel = number of items always suffices for a derivation, and a
+   printed form (FolPrattOk.Pr) is parsed back *)
+Theorem C15_pratt_generic :
+  forall (T U B : Type) (mk_un : U -> T -> T) (mk_bin : B -> T -> T -> T)
+         (pre_bp : U -> option nat) (in_bp : B -> option (nat * assoc))
+         (t : T) (is : list (pitem T U B)) (lv fl : nat),
+  Pr T U B mk_un mk_bin pre_bp in_bp t is lv fl -> 0 < lv -> pratt mk_un mk_bin pre_bp in_bp is = Some t.
+Proof. exact pratt_ok. Qed.
+Print Assumptions C15_pratt_generic.
 
 (* ---------- non-vacuity and witnesses (vm_compute on the executable models) ---------- *)
 Definition ex_text : string :=
